@@ -40,11 +40,12 @@ func (e *Exec) argInt(v Value) int {
 func (g *Engine) registerIntrinsics() {
 	I := g.intr
 	g.registerHashIntrinsics()
+	g.registerStringIntrinsics()
 	vx := func(name string, h func(e *Exec, a []Value, pos token.Pos) Value) {
 		I["vx:"+name] = func(e *Exec, fn *ssa.Function, a []Value, pos token.Pos) Value {
 			if e.spec > 0 {
 				switch name {
-				case "vxSameObject", "vxOffsetIn", "vxIsNilSlice", "vxThorough", "vxKnownOpen", "vxAt":
+				case "vxSameObject", "vxOffsetIn", "vxIsNilSlice", "vxThorough", "vxKnownOpen", "vxAt", "vxStrAt":
 				default:
 					panic(specAbort{"vx call"})
 				}
@@ -106,6 +107,29 @@ func (g *Engine) registerIntrinsics() {
 		e.recordInput("string", 0, arr, n)
 		return &Str{b: o, off: tb.K(64, 0), len: n}
 	})
+	vx("vxASCIIString", func(e *Exec, a []Value, pos token.Pos) Value {
+		max := e.argInt(a[0])
+		tb := e.tb
+		bits := 1
+		for (1 << uint(bits)) <= max {
+			bits++
+		}
+		nv := tb.Fresh("v", bits)
+		n := tb.Conv(nv, 64, false)
+		if max != (1<<uint(bits))-1 {
+			e.assume(tb.Cmp(OUle, nv, tb.K(bits, uint64(max))))
+		}
+		arr := tb.FreshArr("str")
+		o := e.newBObj(n, max, "vxASCIIString")
+		o.base = arr
+		o.ro = true
+		for i := 0; i < max; i++ {
+			e.assume(tb.Cmp(OUlt, tb.Select(arr, tb.K(64, uint64(i))), tb.K(8, 0x80)))
+		}
+		e.recordInput("int", 64, "", n)
+		e.recordInput("string", 0, arr, n)
+		return &Str{b: o, off: tb.K(64, 0), len: n}
+	})
 	vx("vxAssume", func(e *Exec, a []Value, pos token.Pos) Value {
 		c := a[0].(*Term)
 		e.assume(c)
@@ -147,6 +171,11 @@ func (g *Engine) registerIntrinsics() {
 		i := a[1].(*Term)
 		in := e.inRange(i, s.len)
 		return e.tb.Ite(in, e.sliceReadGuarded(s, i, in), e.tb.K(8, 0))
+	})
+	vx("vxStrAt", func(e *Exec, a []Value, pos token.Pos) Value {
+		s := a[0].(*Str)
+		i := a[1].(*Term)
+		return e.tb.Ite(e.inRange(i, s.len), e.strByte(s, i), e.tb.K(8, 0))
 	})
 	vx("vxIsNilSlice", func(e *Exec, a []Value, pos token.Pos) Value { return e.tb.Bool(a[0].(*Slice).isNil()) })
 	vx("vxChoose", func(e *Exec, a []Value, pos token.Pos) Value {
